@@ -150,17 +150,16 @@ Definition c17_wit_res := Eval vm_compute in parse true 0 c17_wit.
 Lemma c17_wit_parse : parse true 0 c17_wit = c17_wit_res.
 Proof. vm_compute. reflexivity. Qed.
 
-(* the pre-scan files "(?<2>" under the NAME "2" (slot 1), the main pass makes it group NUMBER 2 *)
-Theorem C17_prescan_agrees_refuted : ~ C17_prescan_agrees_full.
+(* since /repo 2b27550 the main pass files "(?<2>" under the NAME "2" (slot 1) like the pre-scan: on the old
+   counter-example the two passes now agree (the guarded theorem above still carries the hypothesis; the
+   unguarded statement C17_prescan_agrees_full is neither proved nor refuted here) *)
+Example C17_prescan_agrees_on_old_witness :
+  match c17_wit_res with Ok (t, mks, its) => Forall2 (agrees t) mks its | _ => False end.
 Proof.
-  intros H. pose proof (H 100 true 0 c17_wit _ _ _ c17_wit_ok c17_wit_parse) as F.
-  inversion F as [|mk it mks its Hag _]; subst.
-  destruct Hag as [k [E [m [Hm Hg]]]]. injection E as <-. injection Hm as <-.
-  vm_compute in Hg. discriminate.
+  vm_compute. repeat (constructor; try (eexists; split; [reflexivity|]; eexists; split; reflexivity)).
 Qed.
-Print Assumptions C17_prescan_agrees_refuted.
 
-(* ... and then GetGroupNames is [0 2 2 n]: number 2 is called "2", but the name "2" means number 1 *)
+(* GetGroupNames is still [0 2 2 n]: number 2 is called "2", but the name "2" means number 1 *)
 Theorem C17_name_number_roundtrip_refuted : ~ C17_name_number_roundtrip_full.
 Proof.
   intros H. pose proof (H 100 true 0 c17_wit _ _ _ c17_wit_ok c17_wit_parse 2) as F.
@@ -224,7 +223,9 @@ Example C17_witness_conditional :
     /\ mks = [PNone; PNone; PNone; PNone; PAuto 1; PNone; PNone; PNone; PNone; PNone; PAuto 2; PNone; PNone].
 Proof. cbn zeta. eexists _, _, _. split; [vm_compute; reflexivity|]. split; reflexivity. Qed.
 
-(* MaintainCaptureOrder rejects (a)(?<n>b)(?<5>c) (second half of the known finding) *)
-Example C17_witness_mco_rejects :
-  parse true 0 [TOpen; TLit 0; TClose; TNamed [110]; TLit 1; TClose; TNumbered 5; TLit 2; TClose] = Err e_unrecognized_grouping.
-Proof. vm_compute. reflexivity. Qed.
+(* MaintainCaptureOrder used to reject (a)(?<n>b)(?<5>c) (second half of the old finding); since /repo 2b27550 it
+   is accepted, "5" being the name of the third group *)
+Example C17_witness_mco_accepts :
+  exists t mks, parse true 0 [TOpen; TLit 0; TClose; TNamed [110]; TLit 1; TClose; TNumbered 5; TLit 2; TClose]
+    = Ok (t, mks, [ICapture 1; INone; IClose; ICapture 2; INone; IClose; ICapture 3; INone; IClose]).
+Proof. eexists _, _. vm_compute. reflexivity. Qed.
